@@ -419,15 +419,24 @@ def variant_name(t):
     return None
 
 
+class _Args(tuple):
+    """arguments of a key variant; a missing position reads as a term that equals nothing (a rule that expects `Key(x)` and meets a
+    unit `Key` reports its own obligation instead of failing inside the engine)"""
+    def __getitem__(self, i):
+        if isinstance(i, int) and not (-len(self) <= i < len(self)):
+            return ('missing-key-argument', i)
+        return tuple.__getitem__(self, i)
+
+
 def key_variant(key):
     """storage key term -> (variant name, args) for DataKey-like enum keys"""
     if isinstance(key, tuple) and key[0] == 'variant':
-        return key[2], key[3]
+        return key[2], _Args(key[3])
     if isinstance(key, tuple) and key[0] == 'phi':
         names = set(key_variant(a)[0] for a in key[1])
         if len(names) == 1:
             return key_variant(key[1][0])
-    return None, ()
+    return None, _Args(())
 
 
 def const_value(t):
